@@ -685,6 +685,13 @@ def simulate_poly(rng, tmp, p):
         chosen = chosen[:n]
         if p.get("shared_positions") and c != sim.chroms[0]:
             chosen = [v["pos"] for v in sim.variants[sim.chroms[0]]]  # the same coordinates on every chromosome
+        elif p.get("adjacent_cut") and len(chosen) >= 4:
+            # two SNVs on directly neighbouring reference positions with a coverage break exactly between them
+            x = chosen[rng.randrange(1, len(chosen) - 1)]
+            if x + 1 not in chosen:
+                chosen = sorted(chosen + [x + 1])
+                sim.cuts = getattr(sim, "cuts", {})
+                sim.cuts[c] = x + 1
         dead = p.get("dead_chrom") if (c == sim.chroms[-1] and len(sim.chroms) > 1) else None
         vs = []
         for x in chosen:
@@ -744,6 +751,15 @@ def simulate_poly(rng, tmp, p):
                 b = min(L, a + fl)
                 if b - a < 40 or any(a < g1 and b > g0 for g0, g1 in gaps):
                     continue
+                cut = getattr(sim, "cuts", {}).get(c)
+                if cut is not None and a < cut < b:
+                    # no read crosses the cut: keep the part left or right of it
+                    if rng.random() < 0.5:
+                        b = cut
+                    else:
+                        a = cut
+                    if b - a < 40:
+                        continue
                 win = p.get("read_window", {}).get(s)
                 if win and not (win[0] <= a and b <= win[1]):
                     continue  # this sample's reads reach only part of the contig
